@@ -66,6 +66,10 @@ def sources(tier, seed, ctx):
                 if rot == 0:
                     ops2 = [1, 2] + [3] * (arity - 2)        # the first two operands differ from all the others
                     srcs.append({'k': 'eval', 'net': [3, [[t, ops2]]], 'outs': [4], 'variant': 'plain', 'vs': 2 * arity + 1})
+    # deep circuits: one path longer than the interpreter's recursion limit under all nine partial assignments
+    for depth in ([1500] if tier == 'quick' else [1500, 4000]):
+        srcs.append({'k': 'deep', 'depth': depth})
+        srcs.append({'k': 'deep', 'depth': depth, 'rev': True, 'omit': True})
     # ladders: one internal gate shared by every stage of a long chain (the explicit-stack evaluator pushes it again
     # at every stage), operand order both ways
     for op in ('AND', 'OR', 'XOR', 'GT', 'NAND'):
@@ -83,6 +87,29 @@ def sources(tier, seed, ctx):
 def record(src):
     from cirbo.core.circuit.operators import Undefined
 
+    if src.get('k') == 'deep':
+        from .. import deep
+        c, order = deep.chain(src['depth'], ('NOT', 'XOR', 'AND', 'NXOR', 'NAND', 'OR'), rev=src.get('rev', False))
+        sample = list(dict.fromkeys(list(c.outputs) + order[2::131] + order[-3:]))
+        vals = (False, True, Undefined)
+        res = {'full': {l: [] for l in sample}, 'circ': {l: [] for l in sample}, 'outs': {l: [] for l in dict.fromkeys(c.outputs)}}
+
+        def code(d, l):
+            if d is None or l not in d:
+                return 3
+            v = d[l]
+            return state3(v) if (v is True or v is False or v == Undefined) else 3
+
+        for digits in itertools.product(range(3), repeat=c.input_size):
+            asg = {c.inputs[j]: vals[digits[j]] for j in range(c.input_size) if not (src.get('omit') and digits[j] == 2)}
+            for key, fn in (('full', c.evaluate_full_circuit), ('circ', c.evaluate_circuit), ('outs', c.evaluate_circuit_outputs)):
+                try:
+                    d = fn(dict(asg))
+                except Exception:
+                    d = None
+                for l in res[key]:
+                    res[key][l].append(code(d, l))
+        return {'kind': 'partialdeep', 'c': project(c, users=False, blocks=False), 'order': order, 'sample': sample, 'res': res, 'src': src}
     c = build(src)
     if src.get('vs', 0) % 3 == 0 and len(c.gates) > 0:
         # a circuit with a past: a gate was added on top of an existing one and removed again (bookkeeping such
